@@ -46,9 +46,10 @@ const (
 	opQuiesce
 	opNote // record an event in the trace (no scheduling)
 	opAtomicLoad
+	opChanLen // len(ch) (no scheduling)
 )
 
-var opNames = [...]string{"none", "resume", "yield", "spawn", "exit", "Mutex.Lock", "Mutex.Unlock", "RWMutex.Lock", "RWMutex.Lock(drain)", "RWMutex.Unlock", "RWMutex.RLock", "RWMutex.RUnlock", "WaitGroup.Add", "WaitGroup.Wait", "chan send", "chan recv", "close", "select", "sleep", "choose", "quiesce", "note", "atomic load"}
+var opNames = [...]string{"none", "resume", "yield", "spawn", "exit", "Mutex.Lock", "Mutex.Unlock", "RWMutex.Lock", "RWMutex.Lock(drain)", "RWMutex.Unlock", "RWMutex.RLock", "RWMutex.RUnlock", "WaitGroup.Add", "WaitGroup.Wait", "chan send", "chan recv", "close", "select", "sleep", "choose", "quiesce", "note", "atomic load", "len(chan)"}
 
 func (k opKind) String() string {
 	if int(k) < len(opNames) {
@@ -465,6 +466,12 @@ func (s *sched) immediate(t *thread) bool {
 			s.touchCh(t, r.obj, c)
 		}
 		// parked senders on a closed channel panic when they are scheduled (see enabled/perform).
+	case opChanLen:
+		c := s.chOf(r.obj, r.n)
+		g.idx = len(c.buf)
+		if s.keys {
+			t.h = t.h.op(r.kind).mix(s.oid(t, r.obj)).mix(uint64(len(c.buf)))
+		}
 	case opAtomicStore:
 		if s.keys && r.obj != nil {
 			a := s.atOf(r.obj)
